@@ -1,4 +1,6 @@
 import Agd.Lemmas.Ratelimit
+import Agd.Lemmas.RatelimitHist
+import Agd.Lemmas.RatelimitConc
 import Agd.Tie.C09
 /-!
 # C09 — rate limiting is an exact per-subnet sliding window with backoff and allowlist
@@ -479,8 +481,199 @@ theorem prefix_contains_iff_same_leading_bits (p : Prefix) (a : Addr)
 example : (⟨true, 167772160, 8⟩ : Prefix).contains ⟨true, 167838211⟩ = true ∧
     (167838211 : Nat) < 2 ^ width true ∧ (167772160 : Nat) < 2 ^ width true ∧ 8 ≤ width true := by decide
 
+/-! ## Whole request histories through the middleware -/
+
+/-- **mw_history_is_window_log.** ONE theorem over whole request histories through
+`serveWithRatelimiting`, response weighting interleaved: for every configuration, every set of
+profiles with their own limits (fresh counters), and every history of requests (any mix of
+protocols, clients, profiles, query types and response sizes) whose clock readings are positive and
+non-decreasing — including the readings of each `CountResponses` loop, `tick ≥ 0` apart — what the
+clients observe (`dropped` / served) is exactly what the declarative specification `mwSpecRun` says:
+a request on a non-limited protocol is served and counts nowhere; a request of a profile whose own
+limit covers the client is dropped iff `rps` earlier counted stamps of that profile (queries and
+response units) lie in the closed last second, and touches the global limiter not at all; every
+other request is one event of the per-subnet epoch window-log specification (`especStep`: ANY
+refusal, allowlist, backoff, window), and when it passes, its response is ⌊len / est⌋ further events
+of the same subnet, which later requests of that subnet find in their window. -/
+theorem mw_history_is_window_log (c : Cfg) (h4 : 0 ≤ c.v4ivl) (h6 : 0 ≤ c.v6ivl)
+    (profs : Nat → Option PSpec) (hfresh : ∀ id p, profs id = some p → p.log = [])
+    (reqs : List MReq) (hch : MChain 0 reqs) :
+    mwRun c (HSt.init profs) reqs = mwSpecRun c { glob := ESpec.empty, profs := profs } reqs :=
+  mw_history_refines_spec c h4 h6 profs hfresh reqs hch
+
+/-- Non-vacuity: limit 2 per 1000 in a /24, response estimate 100, ANY refusal, 192.0.2.0/24
+allowlisted, profile 7 with 1 rps.  Profile client passes, is dropped by its profile; a global client
+is served a 250-byte response (weight 2) and its next request is dropped because of it; DoT is not
+limited; an allowlisted client is served; profile 9 has no limit of its own. -/
+example : MChain 0 exReqs ∧ (∀ id p, exProfs id = some p → p.log = []) ∧ 0 ≤ exCfgH.v4ivl ∧ 0 ≤ exCfgH.v6ivl ∧
+    mwRun exCfgH (HSt.init exProfs) exReqs =
+      [.servedCounted, .dropped, .servedCounted, .dropped, .servedNoCount, .servedNoCount, .servedCounted] := by
+  refine ⟨exReqs_chain, exProfs_fresh, by decide, by decide, ?_⟩
+  rw [mw_history_is_window_log exCfgH (by decide) (by decide) exProfs exProfs_fresh exReqs exReqs_chain]
+  decide
+
+/-! ## The allowlist refresh path -/
+
+/-- **host_prefix_contains_iff.** The network built from a consul record contains exactly that host. -/
+theorem host_prefix_contains_iff (a b : Addr) : (hostPrefix b).contains a = true ↔ a = b := by
+  cases a with
+  | mk ai av =>
+    cases b with
+    | mk bi bv =>
+      simp only [hostPrefix, Prefix.contains, Bool.and_eq_true, beq_iff_eq, Addr.mk.injEq]
+      constructor
+      · rintro ⟨h1, h2⟩
+        subst h1
+        simp at h2
+        exact ⟨rfl, h2⟩
+      · rintro ⟨h1, h2⟩
+        subst h1
+        subst h2
+        simp
+
+/-- **consul_refresh_exact.** After a successful refresh a client is allowlisted iff it lies in a
+persistent network or IS one of the hosts in the decoded records (no neighbour of a host, no host of
+an earlier refresh); a failed refresh leaves the allowlist exactly as it was. -/
+theorem consul_refresh_exact (l : Allowlist) (addrs : List Addr) (a : Addr) :
+    (l.consulRefresh (some addrs)).isAllowed a =
+      (l.persistent.any (fun p => p.contains a) || decide (a ∈ addrs)) ∧
+    l.consulRefresh none = l := by
+  refine ⟨?_, rfl⟩
+  have h : (addrs.map hostPrefix).any (fun p => p.contains a) = decide (a ∈ addrs) := by
+    induction addrs with
+    | nil => simp
+    | cons b r ih =>
+      simp only [List.map, List.any_cons, ih, List.mem_cons]
+      by_cases hb : a = b
+      · simp [hb, (host_prefix_contains_iff b b).mpr rfl]
+      · have : (hostPrefix b).contains a = false := by
+          cases hc : (hostPrefix b).contains a
+          · rfl
+          · exact absurd ((host_prefix_contains_iff a b).mp hc) hb
+        simp [this, hb]
+  simp [Allowlist.consulRefresh, Allowlist.update, Allowlist.isAllowed, h]
+
+example : ((({ persistent := [⟨true, 167772160, 8⟩], dynamic := [] } : Allowlist).consulRefresh
+      (some [⟨true, 3221225985⟩])).isAllowed ⟨true, 3221225985⟩) = true := by decide
+example : ((({ persistent := [], dynamic := [] } : Allowlist).consulRefresh
+      (some [⟨true, 3221225985⟩])).isAllowed ⟨true, 3221225986⟩) = false := by decide
+
+/-- **refreshed_history_refines_epoch_log.** End to end: the limiter and its allowlist object driven
+by any sequence of queries and consul refreshes (successful or failed) give, for positive
+non-decreasing query times, exactly the verdicts of the epoch window-log specification in which every
+query is judged under the networks allowlisted at its moment — persistent ones plus the hosts of the
+last successful refresh.  Refreshes never touch limiter state. -/
+theorem refreshed_history_refines_epoch_log (c : Cfg) (h4 : 0 ≤ c.v4ivl) (h6 : 0 ≤ c.v6ivl)
+    (l : Allowlist) (ops : List Op) (hch : Chain 0 ((annotOps l ops).map (·.2))) :
+    runOps c St.empty l ops = especRunA c ESpec.empty (annotOps l ops) := by
+  have key : ∀ (ops : List Op) (s : St) (l : Allowlist), runOps c s l ops = runA c s (annotOps l ops) := by
+    intro ops
+    induction ops with
+    | nil => intro _ _; rfl
+    | cons o r ih =>
+      intro s l
+      cases o with
+      | ev e => simp only [runOps, annotOps, runA]; rw [ih]
+      | refresh resp => simp only [runOps, annotOps]; rw [ih]
+  rw [key, backoff_refines_epoch_log_dynamic_allowlist c h4 h6 _ hch]
+
+/-- Non-vacuity: limit 1 per 2 ns; the client is counted, then a refresh allowlists it, a failed
+refresh changes nothing, a refresh without it makes it countable again. -/
+def exOps : List Op :=
+  [.ev ⟨1, ⟨true, 167772161⟩, 1⟩, .ev ⟨2, ⟨true, 167772161⟩, 1⟩, .refresh (some [⟨true, 167772161⟩]),
+   .ev ⟨3, ⟨true, 167772161⟩, 1⟩, .refresh none, .ev ⟨4, ⟨true, 167772161⟩, 1⟩, .refresh (some []),
+   .ev ⟨4, ⟨true, 167772161⟩, 1⟩]
+example : Chain 0 ((annotOps ⟨[], []⟩ exOps).map (·.2)) ∧
+    runOps exCfg5 St.empty ⟨[], []⟩ exOps = [.pass, .drop, .allowlisted, .allowlisted, .drop] := by
+  refine ⟨by simp [Chain, exOps, annotOps], by decide⟩
+
+/-! ## Goroutines -/
+
+open Conc in
+/-- **concurrent_adds_are_sequential.** `RequestCounter.Add` under its mutex, called from any number
+of goroutines under ANY scheduler: once all calls have returned, the results are exactly those of the
+sequential ring-buffer run (hence, by `ring_refines_history`, of the history model) over the stamps in
+the order in which the goroutines entered the critical section, and that order is a permutation of
+the goroutines. -/
+theorem concurrent_adds_are_sequential (num : Nat) (ivl : Int) (stamps : List Int) (sched : List Nat)
+    (hdone : allDone (Conc.run true ivl (init (num + 1) stamps) sched) = true) :
+    (Conc.run true ivl (init (num + 1) stamps) sched).order.Perm (List.range stamps.length) ∧
+    (Conc.run true ivl (init (num + 1) stamps) sched).order.map (resultOf (Conc.run true ivl (init (num + 1) stamps) sched)) =
+      (ctrRun (Counter.new num ivl)
+        ((Conc.run true ivl (init (num + 1) stamps) sched).order.map (stampOf stamps))).map some := by
+  have h := mutex_linearizable (num + 1) ivl stamps sched hdone
+  refine ⟨h.1, ?_⟩
+  rw [← ring_refines_history]
+  exact h.2
+
+open Conc in
+example : allDone (Conc.run true 100 (init 2 [5, 6, 7]) [1, 0, 1, 2, 1, 0, 2, 0, 0, 2, 2, 2]) = true ∧
+    (Conc.run true 100 (init 2 [5, 6, 7]) [1, 0, 1, 2, 1, 0, 2, 0, 0, 2, 2, 2]).order = [1, 0, 2] := by decide
+
+open Conc in
+/-- **unlocked_add_counterexample.** Without the mutex the claim is false: two goroutines interleaving
+`Push`/`Current` on a fresh counter of limit 1 both report "above", which no sequential order does. -/
+theorem unlocked_add_counterexample :
+    (Conc.run false 100 (init 2 [5, 6]) [0, 0, 1, 1, 0, 1]).ths.map Th.result = [some true, some true] ∧
+    ringRun 100 (Ring.new 2) [5, 6] = [false, true] ∧ ringRun 100 (Ring.new 2) [6, 5] = [false, true] :=
+  racy_add_counterexample
+
+open Conc in
+/-- **warm_bucket_concurrent_is_sequential.** `hasHitRateLimit` from any number of goroutines on a
+subnet whose counter already exists: the results are those of the sequential history model over the
+stamps in the order in which the goroutines performed their `Add`. -/
+theorem warm_bucket_concurrent_is_sequential (num : Nat) (ivl : Int) (stamps : List Int) (sched : List Nat)
+    (hdone : gAllDone (grun num ivl (ginit true stamps) sched) = true) :
+    (addOrder num ivl (ginit true stamps) sched).Perm (List.range stamps.length) ∧
+    (addOrder num ivl (ginit true stamps) sched).map
+        (fun i => (gresults (grun num ivl (ginit true stamps) sched)).getD i none) =
+      (ctrRun (Counter.new num ivl) ((addOrder num ivl (ginit true stamps) sched).map (stampOf stamps))).map some :=
+  warm_slot_linearizable num ivl stamps sched hdone
+
+open Conc in
+example : gAllDone (grun 1 100 (ginit true [5, 6, 7]) [1, 0, 2, 0, 1, 2]) = true ∧
+    addOrder 1 100 (ginit true [5, 6, 7]) [1, 0, 2, 0, 1, 2] = [0, 1, 2] := by decide
+
+open Conc in
+/-- **cold_bucket_creation_race_counterexample.** The get-or-create of a subnet's counter is NOT
+atomic: when two goroutines bring a subnet's very first two queries at once, both can miss, both
+create a counter, and both pass with limit 1 — every sequential order drops the second.  (Observed on
+the real code about once in 2000 eight-goroutine first contacts; outside the statement's quantifier,
+which speaks of event sequences; see `props/C09.json` assumptions.) -/
+theorem cold_bucket_creation_race_counterexample :
+    gresults (grun 1 100 (ginit false [5, 6]) [0, 1, 0, 1, 0, 1]) = [some false, some false] ∧
+    gresults (grun 1 100 (ginit false [5, 6]) [0, 0, 0, 1, 1, 1]) = [some false, some true] ∧
+    gresults (grun 1 100 (ginit false [5, 6]) [1, 1, 1, 0, 0, 0]) = [some true, some false] :=
+  creation_race_counterexample
+
+open Conc in
+/-- **counter_exact_up_to_skew.** Goroutines read `time.Now()` before they take the mutex, so stamps
+can enter the ring out of order by some skew `δ` (`AlmostDesc δ`: a stamp pushed earlier exceeds one
+pushed later by at most `δ`).  The verdict is then sandwiched between the window-log specifications
+for the intervals `ivl - δ` and `ivl + δ`: no drop with fewer than `num` events in the wider window,
+no pass with `num` events in the narrower one.  With `δ = 0` this is `counter_exact`. -/
+theorem counter_exact_up_to_skew (num : Nat) (ivl δ : Int) (hist : List Int) (ts : Int) (hδ : 0 ≤ δ)
+    (hivl : 0 ≤ ivl) (hd : AlmostDesc δ (ts :: hist)) (hpos : ∀ x ∈ hist, 0 < x) (hts : 0 < ts) :
+    (aboveSpec num (ivl - δ) hist ts = true → above num ivl hist ts = true) ∧
+    (above num ivl hist ts = true → aboveSpec num (ivl + δ) hist ts = true) :=
+  counter_skew_sandwich num ivl δ hist ts hδ hivl hd hpos hts
+
+open Conc in
+example : AlmostDesc 2 ((10 : Int) :: [11, 9, 10]) ∧ (∀ x ∈ [11, 9, 10], (0 : Int) < x) ∧
+    above 2 3 [11, 9, 10] 10 = true := by
+  refine ⟨by simp [AlmostDesc], by decide, by decide⟩
+
 end Agd.Ratelimit
 
+#print axioms Agd.Ratelimit.mw_history_is_window_log
+#print axioms Agd.Ratelimit.host_prefix_contains_iff
+#print axioms Agd.Ratelimit.consul_refresh_exact
+#print axioms Agd.Ratelimit.refreshed_history_refines_epoch_log
+#print axioms Agd.Ratelimit.concurrent_adds_are_sequential
+#print axioms Agd.Ratelimit.unlocked_add_counterexample
+#print axioms Agd.Ratelimit.warm_bucket_concurrent_is_sequential
+#print axioms Agd.Ratelimit.cold_bucket_creation_race_counterexample
+#print axioms Agd.Ratelimit.counter_exact_up_to_skew
 #print axioms Agd.Ratelimit.counter_exact
 #print axioms Agd.Ratelimit.ring_refines_history
 #print axioms Agd.Ratelimit.backoff_refines_epoch_log
